@@ -7,7 +7,7 @@ from vlib.schema import D
 from checks import c05
 
 PROP = 'C16'
-VARIANTS = ['asan']
+VARIANTS = ['asan', 'plain']
 RULE = ('random schemas (nested multi/titled/key=value sections, string and list defaults, no-default) with every declaration array and string overwritten with 0xA5 and freed right '
         'after cfg_init (any later read is an AddressSanitizer report); the poisoned context then receives texts that create the 1st..4th instance of nested multi sections, setter '
         'sequences, prints, and must end equal (tree and print) to an unpoisoned twin. Sharing: two contexts created from the same declarations, and two sibling section instances, '
@@ -112,6 +112,8 @@ def gen(tier, seed):
 
 
 def script(spec):
+    if spec['kind'] == 'kvreuse':
+        return kv_script(spec)
     decls = [D.from_json(j) for j in spec['decls']]
     fl = F_COMMENTS if spec['comments'] else 0
     L = []
@@ -232,6 +234,8 @@ def interesting(decls):
 
 
 def judge(spec, events, death):
+    if spec['kind'] == 'kvreuse':
+        return kv_judge(spec, events, death)
     v = Verdict()
     v.nontrivial = interesting(spec['decls'])
     decls = [D.from_json(j) for j in spec['decls']]
@@ -332,9 +336,88 @@ def snap(g):
     return (json.dumps(d[0]['tree'], sort_keys=True) if d else None, p[0]['out'] if p else None)
 
 
+# ---- free-form sections that come and go (run on the plain build: the allocator really re-uses addresses there, AddressSanitizer's does not)
+
+KV_DECLS = [D('kv', 'sec', F_MULTI | F_TITLE | F_KEYSTRVAL, sub=[]), D('one', 'sec', F_KEYSTRVAL, sub=[D('known', 'str', default='k')]), D('i', 'int', default=1)]
+
+
+def kv_specs(tier, seed):
+    rng = core.seeded_rng(seed, 'c16kv')
+    for _ in range(300 if tier == 'quick' else 6000):
+        ops = []
+        live = []
+        for _ in range(rng.randint(4, 14)):
+            r = rng.random()
+            if live and r < 0.35:
+                t = rng.choice(live)
+                live.remove(t)
+                ops.append(['rm', t])
+            else:
+                t = 't%d' % rng.randint(0, 5)
+                if t not in live:
+                    live.append(t)
+                ops.append(['add', t, ['k%d' % rng.randint(0, 9) for _ in range(rng.randint(0, 5))]])
+        yield {'kind': 'kvreuse', 'ops': ops, 'decls': []}
+
+
+def kv_script(spec):
+    lines, sid = schema.emit_schema(KV_DECLS)
+    L = list(lines) + ['init 0 %d 0' % sid]
+    state = {}
+    n = 0
+    for op in spec['ops']:
+        if op[0] == 'rm':
+            L.append('rmtsec 0 %s %s' % (hx('kv'), hx(op[1])))
+            state.pop(op[1], None)
+        else:
+            n += 1
+            body = ' '.join('%s = "v%d_%s"' % (k, n, k) for k in op[2])
+            L.append('parse_buf 0 %s' % hx('kv %s { %s }\none { n%d = "%d" }\n' % (op[1], body, n, n)))
+            state[op[1]] = {k: 'v%d_%s' % (n, k) for k in op[2]}       # a repeated title replaces the instance
+        L.append('note kvcheck')
+        for t, keys in state.items():
+            for k in keys:
+                L.append('get 0 str %s 0' % hx('kv=%s|%s' % (t, k)))
+        L.append('get 0 str %s 0' % hx('one|n%d' % n) if n else 'note none')
+    return '\n'.join(L)
+
+
+def kv_judge(spec, events, death):
+    v = Verdict()
+    v.nontrivial = True
+    if death is not None:
+        v.bad('crash:%s@%s:free-form-reuse' % (death['kind'], death['where']), death['text'][-500:])
+        return v
+    state, n = {}, 0
+    want = []
+    for op in spec['ops']:
+        if op[0] == 'rm':
+            state.pop(op[1], None)
+        else:
+            n += 1
+            state[op[1]] = {k: 'v%d_%s' % (n, k) for k in op[2]}
+        for t, keys in state.items():
+            for k in keys:
+                want.append(('kv=%s|%s' % (t, k), keys[k]))
+        if n:
+            want.append(('one|n%d' % n, str(n)))
+    gets = [e for e in events if e.get('ev') == 'get']
+    v.notes['free_form_lookups'] = len(gets)
+    if len(gets) != len(want):
+        v.bad('harness:short-log', '%d look-ups logged, %d expected' % (len(gets), len(want)))
+        return v
+    for (path, exp), g in zip(want, gets):
+        if unhx(g['v']) != exp:
+            v.bad('free-form-key-lost', 'after %r: %s reads %r, expected %r (keys of free-form section instances that are created, removed and created again)' % (spec['ops'][:6], path, unhx(g['v']), exp))
+            break
+    return v
+
+
 def run(tier, seed, bindirs):
     t0 = time.time()
     res = core.explore('checks.c16', gen(tier, seed), bindirs, chunk=40)
+    res2 = core.explore('checks.c16', kv_specs(tier, seed), bindirs, chunk=20, opts={'variant': 'plain'})
+    res.merge(res2)
     return core.finish(PROP, tier, seed, 'exploration', res, RULE, t0, floor=300,
                        assumptions=['"simple" options (values stored in caller variables) are shared by design and are not generated',
                                     'the poison test relies on AddressSanitizer reporting reads of freed declaration memory (quarantine keeps it unreused within a case)'])
